@@ -360,9 +360,11 @@ class ODE:
         if not isinstance(__o, ODE):
             return False
 
+        # The order in which the components were written is not part of the model
         return (
             __o.comments == self.comments
-            and __o.components == self.components
+            and sorted(__o.components, key=lambda c: c.name)
+            == sorted(self.components, key=lambda c: c.name)
             and __o.name == self.name
         )
 
